@@ -86,7 +86,7 @@ func (p wplan) String() string {
 	}
 	s := fmt.Sprintf("%s #%d fails", p.what, p.k)
 	if p.flavour > 0 {
-		s += " with " + []string{"", "io.ErrUnexpectedEOF", "*fs.PathError{fs.ErrNotExist}", "wrapped context.DeadlineExceeded"}[p.flavour]
+		s += " with " + []string{"", "io.ErrUnexpectedEOF", "*fs.PathError{fs.ErrNotExist}", "wrapped context.DeadlineExceeded", "traversal.SkipMe{}", "io.EOF", "context.Canceled"}[p.flavour]
 	}
 	return s
 }
@@ -587,11 +587,16 @@ func (c16) Run(ts *tape.Set, tier Tier) *Result {
 		plans = append(plans, wplan{what: "open", k: k})
 		if k%2 == 1 || steps[store.WOpen] <= 3 {
 			// the same fault reported with a well-known error value
-			plans = append(plans, wplan{what: []string{"open", "commit", "torn"}[k%3], k: k, after: 2, flavour: 1 + k%3})
+			plans = append(plans, wplan{what: []string{"open", "commit", "torn"}[k%3], k: k, after: 2, flavour: []int{1, 2, 3, 5, 6}[(k/2)%5]})
 		}
 	}
 	// always include the very last (root) block
 	plans = append(plans, wplan{what: "open", k: steps[store.WOpen] - 1})
+	if steps[store.WOpen] <= 40 {
+		for k := 0; k < steps[store.WOpen]; k++ {
+			plans = append(plans, wplan{what: "open", k: k, flavour: 5}, wplan{what: "commit", k: k, flavour: 5})
+		}
+	}
 	for k := 0; k < steps[store.WWrite]; k += stride(steps[store.WWrite]) {
 		plans = append(plans, wplan{what: "torn", k: k, after: (k*7 + 1) % 23})
 	}
